@@ -21,7 +21,11 @@ fn main() -> anyhow::Result<()> {
             let rows = core::par_cases(a.n, a.seed, |ctx, seed, i| gen_val::generate(ctx, seed, i, &kind, malformed));
             core::write_out(&a.out, &rows)
         }
-        Some("replay") => core::replay(a.rest.first().map(String::as_str).unwrap_or("cases.jsonl"), &a.out),
+        Some("replay") => {
+            let no_impl = a.rest.iter().any(|s| s == "--no-impl");
+            let path = a.rest.iter().find(|s| !s.starts_with("--")).cloned().unwrap_or_else(|| "cases.jsonl".into());
+            core::replay(&path, &a.out, no_impl)
+        }
         Some("diff") => {
             let mode = a.rest.first().cloned().unwrap_or_else(|| "drift".into());
             let rows = core::par_cases(a.n, a.seed, |ctx, seed, i| gen_diff::generate(ctx, seed, i, &mode));
